@@ -6,16 +6,17 @@
 (*                                                                                                         *)
 (* File system = set of [p: absolute path, t: "dir"|"file"|"link", tg: link target id].  R = /J/R; /OUT    *)
 (* and /J are outside.  Hostile tree: up to two top-level entries, a directory entry may have one child;   *)
-(* names: "a", "b", "dd" (".."), "sl" (contains '/'), "dot" ("."); kinds dir/file/link; link targets:      *)
+(* names: "a", "b", "A", "dd" (".."), "sl" (contains '/'), "dot" ("."); kinds dir/file/link; link targets: *)
 (* "up" (..), "upup" (../..), "absout" (/OUT), "a".  Plus (Node2/Node3) directories with two entries below  *)
 (* the top level over a reduced alphabet.                                                                  *)
 EXTENDS Naturals, Sequences, FiniteSets, TLC, Json
-CONSTANTS SkipDupCheck, NoSanityInCreate, NoSanityInFill, NoExcl, Emit
+CONSTANTS SkipDupCheck, NoSanityInCreate, NoSanityInFill, NoExcl, Emit,
+          SortCaseFold      \* deviation: tree_sort orders siblings ignoring letter case while the duplicate test (adjacent entries, strcmp) does not
 
 Names == {"a", "b", "dd", "sl", "dot"}
 Kinds == {"dir", "file", "link"}
 Tgts  == {"up", "upup", "absout", "a"}
-Sane(n)   == n \in {"a", "b"}                 \* is_filename_sane: not ".", "..", no '/'
+Sane(n)   == n \in {"a", "b", "A"}            \* is_filename_sane: not ".", "..", no '/'
 Comp(n)   == CASE n = "dd" -> <<"..">> [] n = "dot" -> <<".">> [] n = "sl" -> <<"x", "y">> [] OTHER -> <<n>>
 TgtPath(t) == CASE t = "up" -> <<"..">> [] t = "upup" -> <<"..", "..">> [] t = "absout" -> <<"/", "OUT">> [] OTHER -> <<"a">>
 Root == <<"J", "R">>
@@ -77,7 +78,17 @@ Fill(st, rel, nodes) ==
                       ELSE IF n.kind = "dir" THEN Fill(st, rel \o Comp(n.name), n.kids) ELSE st
             IN Fill(s1, rel, Tail(nodes))
 
-HasDup(nodes) == \E i, j \in 1..Len(nodes) : i < j /\ nodes[i].name = nodes[j].name
+(* tree_sort: stable merge sort of the siblings by name (strcmp), then one pass that compares NEIGHBOURS (strcmp) *)
+Rank(n) == CASE n = "dot" -> 1 [] n = "dd" -> 2 [] n = "A" -> (IF SortCaseFold THEN 4 ELSE 3) [] n = "a" -> 4 [] n = "b" -> 5 [] OTHER -> 6
+RECURSIVE InsertSorted(_, _)
+InsertSorted(s, x) == IF s = <<>> THEN <<x>>
+                      ELSE IF Rank(x.name) < Rank(Head(s).name) THEN <<x>> \o s              \* stable: behind everything that is not greater
+                      ELSE <<Head(s)>> \o InsertSorted(Tail(s), x)
+RECURSIVE SortSibs(_)
+SortSibs(nodes) == IF nodes = <<>> THEN <<>> ELSE InsertSorted(SortSibs(SubSeq(nodes, 1, Len(nodes) - 1)), nodes[Len(nodes)])
+HasDup(nodes) == LET s == SortSibs(nodes) IN \E i \in 1..(Len(s) - 1) : s[i].name = s[i + 1].name
+RECURSIVE SortTree(_)
+SortTree(nodes) == LET s == SortSibs(nodes) IN [i \in 1..Len(s) |-> IF s[i].kind = "dir" THEN [s[i] EXCEPT !.kids = SortTree(s[i].kids)] ELSE s[i]]
 RECURSIVE AnyDup(_)
 AnyDup(nodes) == HasDup(nodes) \/ \E i \in 1..Len(nodes) : nodes[i].kind = "dir" /\ AnyDup(nodes[i].kids)
 
@@ -91,7 +102,11 @@ Node1D == LeafD \cup {[name |-> nm, kind |-> "dir", tgt |-> "a", kids |-> k] : n
 Node2  == {[name |-> nm, kind |-> "dir", tgt |-> "a", kids |-> <<x, y>>] : nm \in {"a", "b"}, x \in Node1D, y \in Node1D}
 Node3  == {[name |-> "a", kind |-> "dir", tgt |-> "a", kids |-> <<n>>] : n \in Node2}
 (* the forest families are enumerated one by one (a union would make TLC normalise 85k nested records) *)
+(* three siblings over names that differ in letter case only: a stable sort that folds case leaves a case variant BETWEEN two equal names *)
+LeafC  == [name : {"a", "A"}, kind : {"file"}, tgt : {"upup"}, kids : {<<>>}] \cup [name : {"a", "A"}, kind : {"link"}, tgt : {"upup", "absout"}, kids : {<<>>}]
+Node1C == LeafC \cup {[name |-> nm, kind |-> "dir", tgt |-> "a", kids |-> k] : nm \in {"a", "A"}, k \in {<<>>} \cup {<<l>> : l \in LeafC}}
 InForests(f) == \/ \E n \in Node : f = <<n>>
+                \/ \E x \in Node1C, y \in Node1C, z \in Node1C : f = <<x, y, z>>
                 \/ \E n \in Node, m \in Node : f = <<n, m>>
                 \/ \E n \in Node2 : f = <<n>>
                 \/ \E n \in Node3 : f = <<n>>
@@ -103,8 +118,9 @@ Init == InForests(forest) /\ result = [fs |-> {[p |-> <<"J">>, t |-> "dir", tg |
 Run == /\ ~result.ran
        /\ IF ~SkipDupCheck /\ AnyDup(forest)
           THEN result' = [result EXCEPT !.fail = TRUE, !.ran = TRUE]                      \* tree_sort rejects duplicates
-          ELSE LET w == Walk([fs |-> result.fs, bad |-> FALSE, fail |-> FALSE], <<>>, forest)
-                   g == Fill(w, <<>>, forest)
+          ELSE LET sorted == SortTree(forest)
+                   w == Walk([fs |-> result.fs, bad |-> FALSE, fail |-> FALSE], <<>>, sorted)
+                   g == Fill(w, <<>>, sorted)
                IN result' = [fs |-> g.fs, bad |-> g.bad, fail |-> g.fail, ran |-> TRUE]
        /\ UNCHANGED forest
 Next == Run \/ (result.ran /\ UNCHANGED <<forest, result>>)
